@@ -130,13 +130,17 @@ def leaves_of(c):
 
 
 def p_sizeext(l, b):
-    """a known-multiplier string whose size lies outside the root of an extensible SIZE with a constrained length field:
-    the C writes 8 * (octets per character) bits per character instead of the bits of the unconstrained type's alphabet"""
+    """a known-multiplier string whose size lies outside the root of an extensible SIZE: with a constrained length field the C
+    writes 8 * (octets per character) bits per character instead of the bits of the unconstrained type's alphabet; with an upper
+    bound MAX / >= 64K it writes the extension bit 0 and the root's alphabet as if the size were inside the root"""
     if not G.known_mult(l) or l["size"] is None or not l["size"][2]:
         return False
     lo, hi, _ = l["size"]
     n = len(b) // G.bpc(l)
-    if hi is None or hi >= 65536 or (lo <= n <= hi) or n == 0:
+    if hi is None or hi >= 65536:
+        # no constrained length field: the C does not even notice that the size is outside the root (extension bit 0, root alphabet)
+        return not (lo <= n and (hi is None or n <= hi))
+    if (lo <= n <= hi) or n == 0:
         return False
     return G.py_bits_per_char([(0, 65535)] if l["asn"] == "BMPString" else G.KINDS[l["asn"]][3]) != 8 * G.bpc(l) or l["asn"] == "NumericString"
 
